@@ -12,8 +12,11 @@ EXTENDS AbsCursor, Generic, Json, IOUtils
 Trace == ndJsonDeserialize(IOEnv.TRACE)
 Prop  == IOEnv.PROP
 
-VARIABLES l, seq, pos
-vars == <<l, seq, pos>>
+\* sl = the line of the walk's NewIter event: the walked sequence is read from there (it can be thousands of pairs long
+\* and would otherwise be copied into every state of the trace)
+VARIABLES l, sl, pos
+vars == <<l, sl, pos>>
+seq == IF sl = 0 THEN <<>> ELSE Trace[sl].seq
 
 IsMove(e) == e.op \notin {"NewIter", "EndIter"}
 
@@ -32,14 +35,14 @@ Obl(p, e) ==
     [] p = "C17" -> Completed(e) /\ e.out = 0
     [] p = "C18" -> e.pure = TRUE             \* iterating did not modify the container
 
-Init == l = 1 /\ seq = <<>> /\ pos = -1
+Init == l = 1 /\ sl = 0 /\ pos = -1
 Step ==
   /\ l <= Len(Trace)
   /\ LET e == Trace[l] IN
      /\ IF Obl(Prop, e) = TRUE THEN TRUE ELSE PrintT("REJECT|" \o ToString(l))
-     /\ IF e.op = "NewIter" THEN seq' = e.seq /\ pos' = e.at      \* -1, or the position IteratorAt(node) starts on
-        ELSE IF e.op = "EndIter" THEN UNCHANGED <<seq, pos>>
-        ELSE seq' = seq /\ pos' = Move(seq, pos, e.op, e.p)
+     /\ IF e.op = "NewIter" THEN sl' = l /\ pos' = e.at           \* -1, or the position IteratorAt(node) starts on
+        ELSE IF e.op = "EndIter" THEN UNCHANGED <<sl, pos>>
+        ELSE sl' = sl /\ pos' = Move(seq, pos, e.op, e.p)
   /\ l' = l + 1
 Spec == Init /\ [][Step]_vars
 Accepted == TLCGet("stats").diameter - 1 = Len(Trace)
